@@ -32,6 +32,7 @@ const (
 	syncPath   = "verif/sim/ssync"
 	atomicPath = "verif/sim/satomic"
 	timePath   = "verif/sim/stime"
+	randPath   = "verif/sim/srand"
 )
 
 func die(format string, a ...any) {
@@ -320,6 +321,8 @@ func (r *rewriter) rewrite() bool {
 			np, nn = atomicPath, "atomic"
 		case "time":
 			np, nn = timePath, "time"
+		case "math/rand":
+			np, nn = randPath, "rand"
 		default:
 			continue
 		}
@@ -343,8 +346,20 @@ func (r *rewriter) rewrite() bool {
 					full := pn.Imported().Path() + "." + x.Sel.Name
 					switch full {
 					case "context.WithTimeout", "context.WithDeadline", "context.WithTimeoutCause", "context.WithDeadlineCause", "context.AfterFunc",
+						// a context derived from the caller's is cancelled by the context package
+						// itself, with a real close of a real channel behind the scheduler's back
+						"context.WithCancel", "context.WithCancelCause",
 						"reflect.Select", "runtime.LockOSThread", "os/signal.Notify", "runtime.SetFinalizer":
 						die("%s: %s is not modelled by the simulator (it would act outside the scheduler's control)", r.pos(x), full)
+					}
+					if pn.Imported().Path() == "math/rand/v2" {
+						switch x.Sel.Name {
+						case "New", "NewPCG", "NewChaCha8", "NewZipf", "Rand", "Source", "PCG", "ChaCha8", "Zipf":
+						default:
+							die("%s: math/rand/v2.%s draws from a randomly seeded global source and is not modelled by the simulator (equal seeds would give different runs)", r.pos(x), x.Sel.Name)
+						}
+					}
+					switch full {
 					case "runtime.Gosched":
 						// a scheduling point at which the caller offers to be descheduled
 						if r.gosched == nil {
